@@ -439,6 +439,27 @@ def d5(cx: Cx, ob: Ob) -> None:
                 witness="record a with synonym x, remapping {'x': 'new'}: nothing is renamed",
                 detail="unknown-test-canonical-only",
             )
+    # the same question asked in a comprehension over the remapping's pairs (the set of prefixes an applicable pair
+    # hands over to another record, a pre-computed list of applicable pairs ..)
+    flagged = set()
+    for t, ev_, _ctx in s.all_terms():
+        for c in subterms(t):
+            if op(c) != "comp" or c in flagged:
+                continue
+            for tgt, it, conds in c[3]:
+                if not (op(tgt) == "tuple" and len(tgt[1]) == 2 and op(it) == "call" and callee_name(it) == "items"):
+                    continue
+                for cond in conds:
+                    for a in subterms(cond):
+                        if op(a) == "cmp" and a[1] in ("in", "not in") and a[2] == tgt[1][0] and _canonical_names_call(a[3]):
+                            flagged.add(c)
+                            ob.violate(
+                                fn.qualname,
+                                where(fn, ev_.line) if ev_ is not None else fn.where,
+                                f"`{show(c)[:90]}` asks whether the old prefix of a pair is known with `in converter.get_prefixes()`, i.e. among CANONICAL prefixes only: a pair keyed by a synonym counts as not applicable here, while the loop over the ordered pairs applies it - the prefix it hands over is not recognised as handed over",
+                                witness="records a (synonym x) and b; remapping {'x': 'b', 'b': 'c'}: 'b' is handed from record b to record a, which this set misses",
+                                detail="unknown-test-canonical-only:comprehension",
+                            )
     seen_clash = any(r == "N" for r, _ in roles.values())
     has_self = any(r == "S" for r, _ in roles.values())
     reported = set()
